@@ -14,6 +14,7 @@ SNIPPETS = {
     "fullB": ("Gammaxo v. Deltaxo, 1 U.S. 300 (2001)", "FullCaseCitation", 0),      # A's reporter+volume
     "fullC": ("Epsilonxo v. Zetaxo, 5 F.2d 50 (1930)", "FullCaseCitation", 0),
     "fullAdup": ("Alphaxo v. Betaxo, 1 U. S. 100, 105 (1999)", "FullCaseCitation", 0),  # variation spelling of A
+    "fullC3": ("Epsilonxo v. Zetaxo, 5 F.3d 50 (1995)", "FullCaseCitation", 0),      # C's volume+page, other series
     "fullPh": ("Etaxo v. Thetaxo, 9 U.S. ___ (2020)", "FullCaseCitation", 0),
     "law": ("Mass. Gen. Laws ch. 1, § 2", "FullLawCitation", 0),
     "journal": ("1 Minn. L. Rev. 1 (1990)", "FullJournalCitation", 0),
@@ -34,6 +35,11 @@ SNIPPETS = {
 KINDS = list(SNIPPETS)
 # extra kinds used only by the boundary-value / sampled workloads
 EXTRA_SNIPPETS = {
+    "fullPh1": ("Etaxo v. Thetaxo, 9 U.S. _ (2020)", "FullCaseCitation", 0),           # one-underscore placeholder
+    "shortC3": ("Epsilonxo, 5 F.3d at 55.", "ShortCaseCitation", 0),                    # C's name+volume, other series
+    "shortPh": ("Etaxo, 9 U.S. at ___.", "ShortCaseCitation", 0),
+    "journalDup": ("1 Minn. L. Rev. 1, 5 (1990) (discussing x)", "FullJournalCitation", 0),
+    "lawDup": ("Mass. Gen. Laws ch. 1, § 2 (West 1999)", "FullLawCitation", 0),
     "idBelow": ("Id. at 99.", "IdCitation", 0),
     "idAtPage": ("Id. at 100.", "IdCitation", 0),
     "idStar": ("Id. at *10.", "IdCitation", 0),
@@ -88,7 +94,12 @@ def sequences(length_max, shard, nshards, kinds=KINDS):
             n += 1
 
 
-def n_sequences(length_max, k=len(KINDS)):
+def n_sequences(length_max, k=None):
+    k = k or len(KINDS)
+    return sum(k ** i for i in range(1, length_max + 1))
+
+
+def _unused(length_max, k=len(KINDS)):
     return sum(k ** i for i in range(1, length_max + 1))
 
 
@@ -213,12 +224,13 @@ def check_c07(seq, res, emit, max_pages, stats=None):
 
 def canon(res, pos, upto=None):
     """Canonical value of a resolution restricted to indexes < upto."""
+    # NOT sorted: the order of the mapping's keys is part of the value ("same resources, same members,
+    # same order")
     out = []
     for rsrc, lst in res.items():
         idx = [pos[id(c)] for c in lst if id(c) in pos and (upto is None or pos[id(c)] < upto)]
         if idx:
             out.append((idx[0], tuple(idx), rsrc))
-    out.sort(key=lambda t: t[0])
     return out
 
 
